@@ -810,6 +810,29 @@ def ob_hetero(law, dim, planeStress):
                 arr.flat[0] *= 1.2
                 setattr(m, k, arr)
                 check(m, params, f"fields {pat}, then the array given for {k} modified in place and assigned again")
+    # moduli given as INTEGER arrays in Pa (e.g. 210_000_000_000): the law is that of the same values given as floats (no silent integer overflow in the products of moduli)
+    big = {k: (v if k.startswith("v") else v * 1e10) for k, v in base.items()}
+    mods = [k for k in base if not k.startswith("v")]
+    ints = {k: (np.array([int(big[k]) * (j + 1) for j in range(Ne)], dtype=np.int64) if k in mods else big[k]) for k in big}
+    flts = {k: (np.asarray(v, dtype=float) if isinstance(v, np.ndarray) else v) for k, v in ints.items()}
+    Ci, Cf = np.asarray(build(ints).C), np.asarray(build(flts).C)
+    n += 1
+    e = float(np.abs(Ci - Cf).max() / np.abs(Cf).max())
+    if not e < 1e-12:
+        raise Refuted(f"{law} dim {dim}: moduli given as int64 per-element arrays ({ {k: ints[k].tolist() for k in mods} }) give a stiffness differing by {e:.3e} (relative) from the same values given as floats",
+                      cex=dict(law=law, dim=dim, moduli={k: ints[k].tolist() for k in mods}), signature=f"hetero:{law}:{dim}:int", replay=dict(confirmed=True, rel_err=e))
+    # the array handed over is the caller's: writing into it afterwards (no assignment) must not leave the model with parameters and a law that disagree
+    arr = np.asarray(flts[mods[0]], dtype=float).copy()
+    m = build({**flts, mods[0]: arr})
+    m.C
+    arr *= 2.0
+    now = {k: getattr(m, k) for k in base}
+    Cm, Cr = np.asarray(m.C), np.asarray(build(now).C)
+    n += 1
+    e = float(np.abs(Cm - Cr).max() / np.abs(Cr).max())
+    if not e < 1e-12:
+        raise Refuted(f"{law} dim {dim}: after the array given for {mods[0]} is modified in place by its owner, the model reports {mods[0]} = {np.asarray(now[mods[0]]).tolist()} but its stiffness is that of other values "
+                      f"(relative difference {e:.3e})", cex=dict(law=law, dim=dim, parameter=mods[0]), signature=f"hetero:{law}:{dim}:alias", replay=dict(confirmed=True, rel_err=e))
     return Verdict(DISCHARGED, backend="native run of the real law classes vs the homogeneous law point by point", sub=n)
 
 
